@@ -130,6 +130,7 @@ type rewriter struct {
 	changed   bool
 	needV     bool
 	needT     bool
+	needU     bool
 	ctr       int
 	funcStack []string
 }
@@ -258,6 +259,9 @@ func (r *rewriter) run() {
 		}
 		name := fd.Name.Name
 		r.funcStack = []string{name}
+		if *access && !strings.HasPrefix(name, "Verif") {
+			r.instrumentAccesses(fd.Body)
+		}
 		r.rewriteBlock(fd.Body)
 	}
 	// package-level var initialisers are not rewritten; verify they contain nothing of interest
@@ -278,6 +282,10 @@ func (r *rewriter) run() {
 	}
 	if r.needT {
 		astutil.AddImport(r.fset, r.file, "verif.local/vsched/vtime")
+		r.changed = true
+	}
+	if r.needU {
+		astutil.AddImport(r.fset, r.file, "unsafe")
 		r.changed = true
 	}
 	if r.needT || r.changed {
@@ -662,3 +670,323 @@ func (r *rewriter) rewriteSelect(n *ast.SelectStmt) ast.Stmt {
 }
 
 var _ = filepath.Join
+
+
+// ---- C18: struct-field access instrumentation ----
+
+type fieldAccess struct {
+	expr  ast.Expr // addressable expression x.f
+	write bool
+	loc   string
+}
+
+func (r *rewriter) ownPkg(p *types.Package) bool {
+	if p == nil {
+		return false
+	}
+	path := p.Path()
+	return strings.HasPrefix(path, "github.com/bartossh/Computantis/src/") || path == "github.com/heimdalr/dag"
+}
+
+// addressable reports whether &e is a legal expression.
+func (r *rewriter) addressable(e ast.Expr) bool {
+	switch x := e.(type) {
+	case *ast.Ident:
+		_, isVar := r.info.Uses[x].(*types.Var)
+		return isVar
+	case *ast.ParenExpr:
+		return r.addressable(x.X)
+	case *ast.StarExpr:
+		return true
+	case *ast.SelectorExpr:
+		sel, ok := r.info.Selections[x]
+		if !ok || sel.Kind() != types.FieldVal {
+			return false
+		}
+		if _, isPtr := r.typeOf(x.X).Underlying().(*types.Pointer); isPtr {
+			return true
+		}
+		return r.addressable(x.X)
+	case *ast.IndexExpr:
+		t := r.typeOf(x.X)
+		if t == nil {
+			return false
+		}
+		switch t.Underlying().(type) {
+		case *types.Slice:
+			return true
+		case *types.Array:
+			return r.addressable(x.X)
+		case *types.Pointer:
+			return true
+		}
+		return false
+	}
+	return false
+}
+
+// localOnly reports whether the selector chain stays inside a local (non-pointer) variable, i.e. memory
+// that no other goroutine can name.
+func (r *rewriter) localOnly(e ast.Expr) bool {
+	for {
+		switch x := e.(type) {
+		case *ast.SelectorExpr:
+			if _, isPtr := r.typeOf(x.X).Underlying().(*types.Pointer); isPtr {
+				return false
+			}
+			e = x.X
+		case *ast.ParenExpr:
+			e = x.X
+		case *ast.Ident:
+			v, ok := r.info.Uses[x].(*types.Var)
+			if !ok {
+				return false
+			}
+			// package-level variables are shared; locals and parameters are not
+			return v.Parent() != nil && v.Parent() != v.Pkg().Scope()
+		default:
+			return false
+		}
+	}
+}
+
+// fieldSel returns the location name if e selects a field of a struct declared in an instrumented package.
+func (r *rewriter) fieldSel(e *ast.SelectorExpr) (string, bool) {
+	sel, ok := r.info.Selections[e]
+	if !ok || sel.Kind() != types.FieldVal {
+		return "", false
+	}
+	v, ok := sel.Obj().(*types.Var)
+	if !ok || !v.IsField() || !r.ownPkg(v.Pkg()) {
+		return "", false
+	}
+	// skip shim-managed fields (locks, atomics, channels are synchronisation objects themselves)
+	ft := v.Type().String()
+	if strings.Contains(ft, "sync.") || strings.Contains(ft, "atomic.") {
+		return "", false
+	}
+	recv := sel.Recv().String()
+	if i := strings.LastIndex(recv, "/"); i >= 0 {
+		recv = strings.TrimPrefix(recv[i+1:], "*")
+	}
+	return strings.TrimPrefix(recv, "*") + "." + v.Name(), true
+}
+
+func (r *rewriter) collect(n ast.Node, write bool, out *[]fieldAccess) {
+	if n == nil {
+		return
+	}
+	switch x := n.(type) {
+	case *ast.FuncLit:
+		return // its body is instrumented on its own
+	case *ast.SelectorExpr:
+		if loc, ok := r.fieldSel(x); ok && r.addressable(x) && !r.localOnly(x) {
+			*out = append(*out, fieldAccess{expr: x, write: write, loc: loc})
+		}
+		r.collect(x.X, false, out)
+		return
+	case *ast.IndexExpr:
+		// m[k] = v or s[i] = v writes the object held by the field (one pseudo-location per object)
+		if t := r.typeOf(x.X); t != nil {
+			if _, isMap := t.Underlying().(*types.Map); isMap {
+				r.collect(x.X, write, out)
+				r.collect(x.Index, false, out)
+				return
+			}
+		}
+		r.collect(x.X, false, out)
+		r.collect(x.Index, false, out)
+		return
+	case *ast.CallExpr:
+		// value-receiver method called through a pointer / addressable struct copies the whole struct
+		if se, ok := x.Fun.(*ast.SelectorExpr); ok {
+			if sel, ok := r.info.Selections[se]; ok && sel.Kind() == types.MethodVal {
+				if fn, ok := sel.Obj().(*types.Func); ok && r.ownPkg(fn.Pkg()) {
+					sig := fn.Type().(*types.Signature)
+					if _, ptrRecv := sig.Recv().Type().(*types.Pointer); !ptrRecv {
+						if st, ok := sig.Recv().Type().Underlying().(*types.Struct); ok {
+							base := se.X
+							if _, isPtr := r.typeOf(base).Underlying().(*types.Pointer); isPtr || r.addressable(base) {
+								tn := sig.Recv().Type().String()
+								if i := strings.LastIndex(tn, "/"); i >= 0 {
+									tn = tn[i+1:]
+								}
+								for i := 0; i < st.NumFields(); i++ {
+									f := st.Field(i)
+									ft := f.Type().String()
+									if strings.Contains(ft, "sync.") || strings.Contains(ft, "atomic.") {
+										continue
+									}
+									*out = append(*out, fieldAccess{expr: &ast.SelectorExpr{X: base, Sel: ast.NewIdent(f.Name())}, write: false, loc: tn + "." + f.Name() + "(struct copy)"})
+								}
+							}
+						}
+					}
+				}
+			}
+			// delete(m, k) / append handled below through generic traversal
+		}
+		if id, ok := x.Fun.(*ast.Ident); ok && r.isBuiltin(id, "delete") && len(x.Args) == 2 {
+			r.collect(x.Args[0], true, out)
+			r.collect(x.Args[1], false, out)
+			return
+		}
+		r.collect(x.Fun, false, out)
+		for _, a := range x.Args {
+			r.collect(a, false, out)
+		}
+		return
+	case *ast.UnaryExpr:
+		if x.Op == token.AND {
+			// taking an address is neither a read nor a write of the field itself
+			if se, ok := x.X.(*ast.SelectorExpr); ok {
+				r.collect(se.X, false, out)
+				return
+			}
+		}
+		r.collect(x.X, false, out)
+		return
+	case *ast.BinaryExpr:
+		r.collect(x.X, false, out)
+		r.collect(x.Y, false, out)
+		return
+	case *ast.ParenExpr:
+		r.collect(x.X, write, out)
+		return
+	case *ast.StarExpr:
+		r.collect(x.X, false, out)
+		return
+	case *ast.SliceExpr:
+		r.collect(x.X, false, out)
+		r.collect(x.Low, false, out)
+		r.collect(x.High, false, out)
+		r.collect(x.Max, false, out)
+		return
+	case *ast.TypeAssertExpr:
+		r.collect(x.X, false, out)
+		return
+	case *ast.CompositeLit:
+		for _, e := range x.Elts {
+			r.collect(e, false, out)
+		}
+		return
+	case *ast.KeyValueExpr:
+		r.collect(x.Value, false, out)
+		return
+	}
+}
+
+func (r *rewriter) stmtAccesses(s ast.Stmt) []fieldAccess {
+	var out []fieldAccess
+	switch x := s.(type) {
+	case *ast.ExprStmt:
+		r.collect(x.X, false, &out)
+	case *ast.AssignStmt:
+		for _, e := range x.Rhs {
+			r.collect(e, false, &out)
+		}
+		for _, e := range x.Lhs {
+			r.collect(e, true, &out)
+			if x.Tok != token.ASSIGN && x.Tok != token.DEFINE {
+				r.collect(e, false, &out)
+			}
+		}
+	case *ast.IncDecStmt:
+		r.collect(x.X, true, &out)
+	case *ast.ReturnStmt:
+		for _, e := range x.Results {
+			r.collect(e, false, &out)
+		}
+	case *ast.SendStmt:
+		r.collect(x.Chan, false, &out)
+		r.collect(x.Value, false, &out)
+	case *ast.IfStmt:
+		if x.Init != nil {
+			out = append(out, r.stmtAccesses(x.Init)...)
+		}
+		r.collect(x.Cond, false, &out)
+	case *ast.ForStmt:
+		if x.Init != nil {
+			out = append(out, r.stmtAccesses(x.Init)...)
+		}
+		r.collect(x.Cond, false, &out)
+	case *ast.RangeStmt:
+		r.collect(x.X, false, &out)
+	case *ast.SwitchStmt:
+		if x.Init != nil {
+			out = append(out, r.stmtAccesses(x.Init)...)
+		}
+		r.collect(x.Tag, false, &out)
+	case *ast.SelectStmt:
+		for _, cl := range x.Body.List {
+			if cc, ok := cl.(*ast.CommClause); ok && cc.Comm != nil {
+				switch c := cc.Comm.(type) {
+				case *ast.ExprStmt:
+					r.collect(c.X, false, &out)
+				case *ast.AssignStmt:
+					for _, e := range c.Rhs {
+						r.collect(e, false, &out)
+					}
+				case *ast.SendStmt:
+					r.collect(c.Chan, false, &out)
+					r.collect(c.Value, false, &out)
+				}
+			}
+		}
+	case *ast.GoStmt:
+		for _, a := range x.Call.Args {
+			r.collect(a, false, &out)
+		}
+		r.collect(x.Call.Fun, false, &out)
+	case *ast.DeferStmt:
+		for _, a := range x.Call.Args {
+			r.collect(a, false, &out)
+		}
+	}
+	return out
+}
+
+// instrumentAccesses inserts vsched.Access calls in front of every statement of every block.
+func (r *rewriter) instrumentAccesses(root ast.Node) {
+	ast.Inspect(root, func(n ast.Node) bool {
+		var list *[]ast.Stmt
+		switch x := n.(type) {
+		case *ast.BlockStmt:
+			list = &x.List
+		case *ast.CaseClause:
+			list = &x.Body
+		case *ast.CommClause:
+			list = &x.Body
+		}
+		if list == nil {
+			return true
+		}
+		var out []ast.Stmt
+		for _, s := range *list {
+			seen := map[string]bool{}
+			for _, a := range r.stmtAccesses(s) {
+				var buf bytes.Buffer
+				format.Node(&buf, r.fset, a.expr)
+				k := fmt.Sprintf("%s/%v", buf.String(), a.write)
+				if seen[k] {
+					continue
+				}
+				seen[k] = true
+				w := "false"
+				if a.write {
+					w = "true"
+				}
+				r.needU = true
+				r.stats["access"]++
+				call := call(r.vs("Access"),
+					call(sel("unsafe", "Pointer"), &ast.UnaryExpr{Op: token.AND, X: a.expr}),
+					ast.NewIdent(w), &ast.BasicLit{Kind: token.STRING, Value: strconv.Quote(a.loc)},
+					&ast.BasicLit{Kind: token.STRING, Value: strconv.Quote(r.pkg.Name + "." + r.curFunc())})
+				out = append(out, &ast.ExprStmt{X: call})
+			}
+			out = append(out, s)
+		}
+		*list = out
+		return true
+	})
+}
